@@ -509,7 +509,11 @@ func (c *Collection) Update(key string, exp Exp, callback sgbucket.UpdateFunc) (
 		casOut, err = c.WriteCas(key, exp, cas, raw, opt)
 		if err == nil {
 			break
-		} else if _, ok := err.(sgbucket.CasMismatchErr); !ok {
+		} else if _, ok := err.(sgbucket.CasMismatchErr); ok {
+			continue // retry
+		} else if errors.As(err, &missingError) && cas != 0 {
+			continue // the doc was deleted after we read it: that's a CAS conflict too, so retry
+		} else {
 			return 0, err // fatal error
 		}
 	}
